@@ -15,10 +15,12 @@ var (
 		`\s*` + Comment + `.*`, ``,
 		`(?m)^(?:[\t\s]*(?:\r?\n|\r))+`, ``,
 	})
+	// Whole keys and whole values only: 'hostname=DESKTOP' is not a hex name
 	regHex = map[string]*regexp.Regexp{
-		"name":    regexp.MustCompile(`name=[0-9A-F]+`),
-		"comm":    regexp.MustCompile(`comm=[0-9A-F]+`),
-		"profile": regexp.MustCompile(`profile=[0-9A-F]+`),
+		"name":    regexp.MustCompile(`\bname=[0-9A-F]+\b`),
+		"srcname": regexp.MustCompile(`\bsrcname=[0-9A-F]+\b`),
+		"comm":    regexp.MustCompile(`\bcomm=[0-9A-F]+\b`),
+		"profile": regexp.MustCompile(`\bprofile=[0-9A-F]+\b`),
 	}
 )
 
